@@ -20,7 +20,9 @@ import traceback
 from typing import Any, Callable, Dict, Iterable, List, Optional
 
 ROOT = pathlib.Path(__file__).resolve().parent.parent
-REPO = pathlib.Path("/repo")
+# The registered checks always exercise /repo's working tree. VF_REPO lets the mutant-evaluation tooling point a
+# check at a scratch worktree carrying a seeded change, so several can be evaluated in parallel.
+REPO = pathlib.Path(os.environ.get("VF_REPO", "/repo"))
 PY = "/venv/bin/python"
 DEPS = ROOT / ".deps"
 WHEELS = "/opt/veriftools/wheels"
@@ -160,6 +162,7 @@ class Plan:
     timeout_s: int = 900          # wall-clock watchdog per shard: firing => inconclusive
     env: Optional[Dict[str, str]] = None
     params: Optional[Dict[str, Any]] = None
+    shard_env: Optional[List[Dict[str, str]]] = None   # per-shard environment (e.g. a different PYTHONHASHSEED each)
 
 
 @dataclasses.dataclass
@@ -228,10 +231,12 @@ def run_check(prop: str, tier: str, seed: int) -> int:
             out.unlink()
         env = dict(os.environ)
         env.setdefault("PYTHONHASHSEED", "0")
-        env["PYTHONPATH"] = f"{ROOT}:{DEPS}"
+        env["PYTHONPATH"] = f"{ROOT}:{DEPS}" + (f":{REPO}" if str(REPO) != "/repo" else "")
         env["BASANA_VERIF"] = "1"
         if plan.env:
             env.update(plan.env)
+        if plan.shard_env:
+            env.update(plan.shard_env[shard % len(plan.shard_env)])
         cmd = [PY, "-X", "faulthandler", "-m", "vf.worker", "--prop", prop, "--tier", tier, "--seed", str(seed),
                "--shard", str(shard), "--nshards", str(plan.shards), "--cases", str(plan.cases_per_shard),
                "--timeout", str(plan.timeout_s), "--out", str(out)]
@@ -340,8 +345,9 @@ def run_check(prop: str, tier: str, seed: int) -> int:
         "verdict": VIOLATED if unknown else (INCONCLUSIVE if inconclusive else HELD),
         "repo_tree": os.path.realpath(str(REPO)),
     }
-    (ROOT / "evidence").mkdir(exist_ok=True)
-    (ROOT / "evidence" / f"{prop}.json").write_text(json.dumps(evidence, indent=1, default=str) + "\n")
+    evdir = pathlib.Path(os.environ.get("VF_EVIDENCE_DIR", str(ROOT / "evidence")))   # overridden by mutant tooling only
+    evdir.mkdir(parents=True, exist_ok=True)
+    (evdir / f"{prop}.json").write_text(json.dumps(evidence, indent=1, default=str) + "\n")
 
     for line in lines:
         print(line)
